@@ -410,6 +410,75 @@ def opRaw (st : St) (pipelined : Bool) (k : Nat) (ts : List String) : String :=
     let strs := outs.map fun (q, w) => obsOrDash q "" ++ " " ++ wireStrL st.wireLimit w ++ (if w.isEmpty || w == sInterim100 then " short" else "")  -- no final response: nothing, or only the interim 100
     " ; ".intercalate strs ++ " ; R0"
 
+/-! ### `reuse`: ONE client HttpRequest object sent several times (method / framing / body changed in between)
+
+What the object carries from one send to the next is its body and whether it has a `Content-Length` (`put()` sets one, also
+"0"; a chunked send removes it from the object; a send with a length puts it back when the body is not empty).  Each send is
+then an exchange of its own: `exchange` on a fresh `Req` with the object's current method, headers and body. -/
+
+structure ReuseSend where
+  method : Bytes
+  chunked : Bool
+  put : String            -- "=" keeps the body, "b" / "t" / "f" put a new one
+  body : Bytes
+  plan : Plan
+
+def sChunked : Bytes := "chunked".toUTF8.toList
+
+/-- the independent requests a sequence of sends of one object amounts to -/
+def reuseReqs (target : Bytes) (viaDic : Bool) (hs : List (Bytes × Bytes)) :
+    List ReuseSend → String → Bytes → Bool → List (Req × Plan)
+  | [], _, _, _ => []
+  | s :: rest, kind, body, cl =>
+    let (kind, body, cl) := if s.put == "=" then (kind, body, cl) else (s.put, s.body, true)
+    let k := if kind == "f" then "f" else if s.chunked || cl || !body.isEmpty then (if kind == "n" then "n" else "b") else "n"
+    let hs' := if s.chunked then hs ++ [(sTransferEncoding, sChunked)] else hs
+    let r : Req := { method := s.method, target, viaDic, follow := true, headers := hs', kind := k, body := body }
+    let cl' := if s.chunked then false else if body.isEmpty then cl else true
+    (r, s.plan) :: reuseReqs target viaDic hs rest kind body cl'
+
+def reuseParse : Nat → List String → List ReuseSend → Option (List ReuseSend)
+  | 0, ts, acc => if ts.isEmpty then some acc.reverse else none
+  | k + 1, m :: fr :: put :: rest, acc =>
+    match unhexFast m with
+    | none => none
+    | some m =>
+      if put == "=" then
+        match planOf rest with
+        | some (p, rest) => reuseParse k rest ({ method := m, chunked := fr == "C", put, body := [], plan := p } :: acc)
+        | none => none
+      else if put ∈ ["b", "t", "f"] then
+        match rest with
+        | b :: rest =>
+          match bodyOf b, planOf rest with
+          | some x, some (p, rest) => reuseParse k rest ({ method := m, chunked := fr == "C", put, body := x, plan := p } :: acc)
+          | _, _ => none
+        | [] => none
+      else none
+  | _, _, _ => none
+
+def opReuse (st : St) (ts : List String) : String :=
+  match ts with
+  | t :: fl :: rest =>
+    match unhexFast t, hdrsOf rest with
+    | some t, some (hs, k :: rest) =>
+      match k.toNat? with
+      | some k =>
+        if k < 1 || k > 9 then "bad-op" else
+        match reuseParse k rest [] with
+        | some sends =>
+          let outs := (reuseReqs t (fl.startsWith "D") hs sends "n" [] false).map fun (r, p) =>
+            let (q, resp) := exchange st.options r p 4 r.target none none
+            let isJson := match p.kind with
+              | .json => true
+              | _ => false
+            obsOrDash q "" ++ " | " ++ clientObs resp isJson
+          " || ".intercalate outs
+        | none => "bad-op"
+      | none => "bad-op"
+    | _, _ => "bad-op"
+  | _ => "bad-op"
+
 def step (st : St) (ts : List String) : St × String :=
   match ts with
   | ["wirelimit", n] => ({ st with wireLimit := n.toNat?.getD 160 }, "ok")
@@ -436,6 +505,7 @@ def step (st : St) (ts : List String) : St × String :=
         else (st, out)
       | _ => (st, "bad-op")
     | none => (st, "bad-op")
+  | "reuse" :: rest => (st, opReuse st rest)
   | "cwire" :: rest =>
     match reqOf rest with
     | some (r, []) =>
